@@ -215,8 +215,57 @@ func c13TypeChange(c *core.Ctx) {
 	}
 }
 
+// c13CheckedContainers: a map / list written under a field checker that selects its field is written whole - the
+// containers nested inside it included.
+func c13CheckedContainers(c *core.Ctx) {
+	d, err := openC13(c)
+	if err != nil {
+		c.Violation("C13 setup", err.Error(), nil)
+		return
+	}
+	defer d.close()
+	m := map[string]any{"plain": "x", "inner": map[string]any{"deep": int64(3), "deeper": map[string]any{"z": true}}, "items": []any{"a", int64(2), map[string]any{"k": "v"}}}
+	l := []any{"a", []any{"nested", int64(1)}, map[string]any{"in": "list"}}
+	for _, sel := range []boltz.MapFieldChecker{{"cm": {}, "cl": {}}, {"cm": {}}, {"other": {}}} {
+		if err := d.update(func(b *boltz.TypedBucket) {
+			b.PutMap("cm", map[string]any{"old": "o"}, nil, true)
+			b.PutList("cl", []any{"old"}, nil)
+		}); err != nil {
+			c.Violationf("C13 checked containers: baseline write failed", nil, "%v", err)
+			return
+		}
+		if err := d.update(func(b *boltz.TypedBucket) {
+			b.PutMap("cm", m, sel, true)
+			b.PutList("cl", l, sel)
+		}); err != nil {
+			c.Violationf("C13 checked containers: write failed", nil, "%v", err)
+			return
+		}
+		d.view(func(b *boltz.TypedBucket) {
+			_, mSel := sel["cm"]
+			_, lSel := sel["cl"]
+			wantM, wantL := any(map[string]any{"old": "o"}), any([]any{"old"})
+			if mSel {
+				wantM = expectNested(m)
+			}
+			if lSel {
+				wantL = expectNested(l)
+			}
+			c.Eval()
+			c.Count("checked_container_writes", 1)
+			if gm := b.GetMap("cm"); !nestedEq(wantM, gm) {
+				c.Violationf("C13 a map written under a field checker is not read back whole (selected: "+fmt.Sprint(mSel)+")", map[string]any{"checker": sortedKeys(sel)}, "read %s, expected %s", short(gm), short(wantM))
+			}
+			if gl := b.GetList("cl"); !nestedEq(wantL, any(gl)) {
+				c.Violationf("C13 a list written under a field checker is not read back whole (selected: "+fmt.Sprint(lSel)+")", map[string]any{"checker": sortedKeys(sel)}, "read %s, expected %s", short(gl), short(wantL))
+			}
+		})
+	}
+}
+
 func c13TwoHandles(c *core.Ctx) {
 	c13TypeChange(c)
+	c13CheckedContainers(c)
 	r := c.Rand()
 	d, err := openC13(c)
 	if err != nil {
